@@ -54,12 +54,13 @@ impl util::SymbolManager<asm::Symbol>
                         {
                             // Labels that fall outside of the bank or
                             // inside the 16-byte file header have no PRG offset
-                            // (addresses count the bank's units, offsets count bytes)
+                            // (addresses count the bank's units, offsets count bytes:
+                            // the byte is that of the label's bit position in the file)
                             let maybe_prg_offset = addr
                                 .checked_sub(addr_start)
                                 .and_then(|o| o.checked_mul(bankdef.addr_unit))
-                                .map(|o| o / 8)
-                                .and_then(|o| o.checked_add(output_offset / 8))
+                                .and_then(|bits| bits.checked_add(output_offset))
+                                .map(|bits| bits / 8)
                                 .and_then(|o| o.checked_sub(0x10));
 
                             if let Some(prg_offset) = maybe_prg_offset
